@@ -269,6 +269,8 @@ def rule_serde(ctx):
     ctx.ob("SERDE-NAMES", "Deserialize accepts no other string", set(acc) == set(names.values()), fn=vs[0], detail=str(sorted(x for x in acc if x not in names.values())))
 
 
+THOROUGH_FS = []
+
 RULES = [
     ("TYPE-TABLE", rule_type_table, 7 * 6),
     ("VIEWS", rule_views, 5),
